@@ -156,6 +156,21 @@ def run(ctx):
     run.analysed["fixpoint_iterations"] = ef.iterations
     run.extra["listed_not_reported"] = listed[:60]
 
+    # R9 (borrowed from C02.R1): slot kind safety.  A value of the wrong
+    # kind in a slot (a ValueInfo where a section value belongs, a list where
+    # a mapping belongs) surfaces later as AttributeError/TypeError from
+    # finish()/constuct(); the per-child decision tables of the methods that
+    # fill and consume slots must agree with the reference.
+    from rules.common import crosscheck
+    run.rule("C07.R9", "slot kind safety: the methods that fill and consume "
+             "slots agree on the kind of value per child (borrowed from "
+             "C02.R1)", floor=4)
+    BM = "ZConfig.matcher.BaseMatcher"
+    for live, ref in (("addValue", "addValue"), ("addSection", "addSection"),
+                      ("finish", "finish"), ("constuct", "construct")):
+        crosscheck(ctx, "C07.R9", BM + "." + live, "ref_matcher.py", ref, BM,
+                   "per-child slot handling of " + live)
+
     _r2_positions(ctx)
     _r3_cycles(ctx)
     _r4_subscripts(ctx)
